@@ -34,7 +34,7 @@ OMEGA_E = 7.2921159e-5
 LABELS = ts.SCALES
 _tables = None
 
-OPS = ["sgp4", "sgp4beta", "kepler", "j2", "keplernum", "cw", "none", "sun", "moon", "frames", "station", "ephem", "ephem-nodes", "events",
+OPS = ["sgp4", "sgp4beta", "kepler", "j2", "keplernum", "cw", "keplernum-man", "cw-man", "none", "sun", "moon", "frames", "station", "ephem", "ephem-nodes", "events",
        "tle-text", "ccsds-opm", "ccsds-oem", "ccsds-man", "lambert", "ltan", "beta"]
 
 
@@ -208,6 +208,37 @@ def run_case(ctx, job, idx, rng, st):
         o = Orbit([100.0, -500.0, 30.0, 0.1, -0.2, 0.05], epoch.date(le), "cartesian", "Hill", ClohessyWiltshire(7.0e6))
         return {"pv": ("vec", vec(o.propagate(short.date(l))))}
 
+    # maneuvers dated with the label `l` on an orbit whose epoch is labelled `le` (the propagator derives its own dates
+    # from the epoch): a burn window and an impulse, both off the step grid, strictly inside the propagated span
+    burn_start = epoch.shifted(round(rng.uniform(303.0, 350.0), 6))
+    burn_dur = round(rng.uniform(90.0, 240.0), 6)
+    burn_acc = [rng.uniform(-1, 1) * 0.01 for _ in range(3)]
+    imp_at = epoch.shifted(round(rng.uniform(663.0, 710.0), 6))
+    imp_dv = [rng.uniform(-1, 1) for _ in range(3)]
+    man_req = epoch.shifted(round(rng.uniform(900.0, 1100.0), 6))
+    burn_pos = rng.choice(["start", "median", "stop"])
+
+    def mans(l, frame):
+        from beyond.orbits.man import ContinuousMan
+
+        anchor = burn_start.shifted({"start": 0.0, "median": burn_dur / 2, "stop": burn_dur}[burn_pos])
+        return [ContinuousMan(anchor.date(l), timedelta(seconds=burn_dur), accel=list(burn_acc), frame=frame, date_pos=burn_pos),
+                ImpulsiveMan(imp_at.date(l), list(imp_dv), frame=frame)]
+
+    def op_keplernum_man(l, le):
+        prop = KeplerNum(timedelta(seconds=60), get_body("Earth"))
+        o = cart_orbit(le, prop)
+        o.maneuvers = mans(l, "TNW")
+        with probe.CallBudget(KeplerNum, "_make_step", 2000):
+            return {"pv": ("vec", vec(o.propagate(man_req.date(l))))}
+
+    def op_cw_man(l, le):
+        o = Orbit([100.0, -500.0, 30.0, 0.1, -0.2, 0.05], epoch.date(le), "cartesian", "Hill", ClohessyWiltshire(7.0e6))
+        o.maneuvers = mans(l, None)
+        # the request carries the label of the epoch, the maneuvers the other one
+        in_burn = burn_start.shifted(round(burn_dur * 0.6, 6))
+        return {"pv": ("vec", vec(o.propagate(man_req.date(le)))), "pv-in-burn": ("vec", vec(o.propagate(in_burn.date(le))))}
+
     def op_none(l, le):
         o = cart_orbit(le, NonePropagator()).propagate(arg.date(l))
         return {"pv": ("vec", vec(o)), "date": ("us", (o.date - arg.date("UTC")).total_seconds() * 1e6)}
@@ -317,16 +348,16 @@ def run_case(ctx, job, idx, rng, st):
     def op_beta(l, le):
         return {"beta": ("rad", float(beta(StateVector(cart, arg.date(l), "cartesian", "EME2000"), "Sun")))}
 
-    ops = dict(zip(OPS, [op_sgp4, op_sgp4beta, op_kepler, op_j2, op_keplernum, op_cw, op_none, op_sun, op_moon, op_frames, op_station,
+    ops = dict(zip(OPS, [op_sgp4, op_sgp4beta, op_kepler, op_j2, op_keplernum, op_cw, op_keplernum_man, op_cw_man, op_none, op_sun, op_moon, op_frames, op_station,
                          op_ephem, op_ephem_nodes, op_events, op_tle_text, op_ccsds_opm, op_ccsds_oem, op_ccsds_man, op_lambert, op_ltan, op_beta]))
 
     # which instants does each operation hand to the library as labelled dates
     involved = {
-        "arg": [arg], "epoch": [epoch], "short": [short], "arrival": [arrival],
+        "arg": [arg], "epoch": [epoch], "short": [short], "arrival": [arrival], "man": [burn_start, imp_at, man_req],
     }
     dates_of = {
         "sgp4": (["arg"], ["epoch"]), "sgp4beta": (["arg"], ["epoch"]), "kepler": (["arg"], ["epoch"]), "j2": (["arg"], ["epoch"]),
-        "keplernum": (["short"], ["epoch"]), "cw": (["short"], ["epoch"]), "none": (["arg"], ["epoch"]), "sun": (["arg"], []), "moon": (["arg"], []),
+        "keplernum": (["short"], ["epoch"]), "cw": (["short"], ["epoch"]), "keplernum-man": (["man"], ["epoch"]), "cw-man": (["man"], ["epoch"]), "none": (["arg"], ["epoch"]), "sun": (["arg"], []), "moon": (["arg"], []),
         "frames": (["arg"], []), "station": (["arg"], []), "ephem": (["epoch"], ["epoch"]), "ephem-nodes": (["epoch"], ["epoch"]), "events": (["epoch", "arg"], ["epoch"]),
         "tle-text": ([], ["epoch"]), "ccsds-opm": ([], ["epoch"]), "ccsds-oem": ([], ["epoch"]), "ccsds-man": (["arg"], ["epoch"]),
         "lambert": (["arrival"], ["epoch"]), "ltan": (["arg"], []), "beta": (["arg"], []),
@@ -334,7 +365,7 @@ def run_case(ctx, job, idx, rng, st):
     eop_sensitive = {"frames", "station", "ltan", "sun", "beta"}
     lo_short, hi_short = min(0.0, short.mjd - epoch.mjd) * 86400 - 600, max(0.0, short.mjd - epoch.mjd) * 86400 + 600
     span_of = {  # operations that derive further dates from the ones they are given (start + k.step, bisection, extra steps)
-        "keplernum": (lo_short, hi_short), "cw": (lo_short, hi_short), "ephem": (0.0, 2400.0), "ephem-nodes": (0.0, 90.0), "events": (-2000.0, 6600.0 + 2000.0),
+        "keplernum": (lo_short, hi_short), "cw": (lo_short, hi_short), "keplernum-man": (-1200.0, 1800.0), "cw-man": (-1200.0, 1200.0), "ephem": (0.0, 2400.0), "ephem-nodes": (0.0, 90.0), "events": (-2000.0, 6600.0 + 2000.0),
         "ccsds-oem": (0.0, 1200.0),
     }
 
@@ -359,7 +390,7 @@ def run_case(ctx, job, idx, rng, st):
     # known mechanism bound: one day's change of UT1-UTC around the dates involved (own IERS parser), + the jd resolution
     if real:
         diffs = []
-        for inst in (epoch, arg, arrival):
+        for inst in (epoch, arg, arrival, man_req):
             day = math.floor(inst.mjd)
             for k in (-1, 0, 1, 2):
                 dd = tb.f1980[day + k]["ut1_utc"] - tb.f1980[day + k - 1]["ut1_utc"]
@@ -440,8 +471,13 @@ def run_case(ctx, job, idx, rng, st):
                         tol = vn * 5.5e-5 + 1e-6 + 1e-12 * rn
                     else:
                         tol = vn * t_res + 1e-6 + 1e-12 * rn
+                    if name in ("keplernum-man", "cw-man"):
+                        # a burn window / an impulse moved by the time resolution: (acceleration x span + dv) x resolution
+                        tol += 2 * (0.0174 * 1100.0 + 1.74) * t_res
                     known_bound = (vn + OMEGA_E * rn) * kt + 1e-7 * rn
-                    if name in ("keplernum", "ephem", "ephem-nodes", "ccsds-oem", "events"):
+                    if name in ("keplernum-man", "cw-man"):
+                        known_bound += 2 * (0.0174 * 1100.0 + 1.74) * kt
+                    if name in ("keplernum", "keplernum-man", "ephem", "ephem-nodes", "ccsds-oem", "events"):
                         # these interpolate (order 8) over nodes dated by label arithmetic: a node table with a one-day-dUT1
                         # step in its dates is amplified by the Lebesgue constant of the window (< 4 for order 8, uniform)
                         known_bound *= 4.0
